@@ -29,7 +29,7 @@ from dataclasses import dataclass, field
 from typing import Any, Dict, Generic, List, Optional, Tuple, TypeVar, Union
 from apischema import deserializer, serializer, validator as _validator, ValidationError as _VE
 from apischema.conversions import Conversion, LazyConversion
-from apischema.metadata import conversion as _conv_md
+from apischema.metadata import conversion as _conv_md, validators as _validators_md
 T = TypeVar("T")
 def _from_csv(s: str) -> List[str]:
     return s.split(",") if s else []
@@ -83,10 +83,17 @@ def render(shape, sfx):
                     out.append(f"    {fname}: List[str] = field(default_factory=list, metadata=_conv_md(_from_csv, _to_csv))")
                 elif ft[0] == "opt":
                     out.append(f"    {fname}: {ann(ft, sfx)} = None")
+                elif fname in (c.get("md_validators") or {}):
+                    # function validator given through field metadata (unregistered: its dependencies are computed when
+                    # the method of the field's class is compiled, i.e. at first use)
+                    out.append(f"    {fname}: {ann(ft, sfx)} = field(metadata=_validators_md(_chk_{c['md_validators'][fname]}_{sfx}))")
                 else:
                     out.append(f"    {fname}: {ann(ft, sfx)}")
             if not c["fields"]:
                 out.append("    pass")
+            if c.get("helper"):  # helper method through which the checker below reads the fields a and b
+                out.append("    def span(self):\n        return self.b - self.a")
+                out.append(f"def _chk_{n}(o):\n    if o.span() < 0:\n        raise _VE(\"negative span\")")
             if c.get("validator"):  # class-level validator whose dependencies are the int fields a and b
                 out.append("    @_validator\n    def _check_ab(self):\n        if self.a > self.b:\n            raise _VE(\"a > b\")")
         elif kind in ("idstr", "idlazy", "wrapof"):
@@ -332,6 +339,9 @@ def fixed_shapes():
                        "entries": [R("N"), R("M")]}
     sh["validated"] = {"classes": [dict(dc("N", ("a", I), ("b", I), ("m", O(R("M")))), validator=True), dc("M", ("ns", L(R("N"))), ("n", O(R("N"))))],
                        "entries": [R("N"), R("M")]}
+    sh["mdvalidated"] = {"classes": [dict(dc("N", ("a", I), ("b", I)), helper=True), dict(dc("M", ("n", R("N")), ("ns", L(R("N"))), ("m", O(R("M")))), md_validators={"n": "N"}),
+                                     dict(dc("H", ("n", R("N")), ("v", I)), md_validators={"n": "N"})],
+                         "entries": [R("M"), R("H"), L(R("M"))]}
     sh["lazyrec"] = {"classes": [dc("Foo", ("elements", L(["union", I, R("Foo")])))], "entries": [R("Foo"), L(R("Foo"))], "lazyrec": "Foo"}
     for n, s in sh.items():
         s["name"] = n
